@@ -291,6 +291,21 @@ Record content := mkContent {
   c_received : list htlc;
 }.
 
+(** * The protocol handler's glue (vls-protocol-signer/src/handler.rs): what
+      [SignRemoteCommitmentTx] (raw) and [SignRemoteCommitmentTx2] (semantic) hand to the core.
+      A wire [Htlc] carries its amount in millisatoshi; [extract_htlcs] keeps the whole satoshis
+      (BOLT-3: the output is amount_msat / 1000, rounded down).  Side 1 (REMOTE: offered by the
+      counterparty) becomes an offered HTLC of their commitment, side 0 (LOCAL) a received one;
+      entries with any other side are dropped; the order inside each list is the wire order. *)
+Record whtlc := mkWHtlc { w_side : N; w_msat : N; w_hash : bytes; w_cltv : N }.
+Definition wire_htlc (w : whtlc) : htlc := mkHtlc (w_msat w / 1000) (w_hash w) (w_cltv w).
+Definition extract_htlcs (side : N) (l : list whtlc) : list htlc :=
+  map wire_htlc (filter (fun w => w_side w =? side) l).
+(** [SignRemoteCommitmentTx2]: commitment_number, feerate, to_local_value_sat (ours),
+    to_remote_value_sat (theirs), htlcs *)
+Definition wire_content (num feerate to_local to_remote : N) (l : list whtlc) : content :=
+  mkContent num feerate to_local to_remote (extract_htlcs 1 l) (extract_htlcs 0 l).
+
 (** * Transactions *)
 Record txin := mkIn { i_txid : bytes; i_vout : N; i_script : bytes; i_seq : N; i_wit : list bytes }.
 Record txout := mkOut { o_value : N; o_spk : bytes }.
@@ -692,5 +707,12 @@ Section Model.
           Ok (sign funding_key (commit_sighash (canon_tx c)),
               map (fun x => sign htlc_key (htlc_sighash x)) hts)
       end.
+    (** the handler-level requests: the same two entry points on the content the glue extracts *)
+    Definition handle_sign_remote_commitment_tx2 (num feerate to_local to_remote : N) (l : list whtlc)
+      : res (SIG * list SIG) :=
+      sign_phase2 (wire_content num feerate to_local to_remote l).
+    Definition handle_sign_remote_commitment_tx (t : tx) (ws : list bytes) (num feerate : N)
+      (l : list whtlc) : res SIG :=
+      sign_phase1 t ws num feerate (extract_htlcs 1 l) (extract_htlcs 0 l).
   End Canon.
 End Model.
